@@ -56,18 +56,42 @@ def exact_verdict(kind, c, excl, lit):
     return b > 0 and (v / b).denominator == 1
 
 
+EDGES = [0, 1, -1, 127, 128, -128, -129, 255, 256, 32767, 32768, 65535, 65536, 2**31 - 1, 2**31, -2**31, -2**31 - 1, 2**32 - 1, 2**32,
+         2**53, -2**53, 2**62, 2**63 - 1, 2**63, -2**63, 2**64 - 1]
+
+
+def edge_groups():
+    """every integer edge of a Go carrier against the bounds next to it, inclusive and exclusive, maximum and minimum"""
+    out = []
+    for e in EDGES:
+        for d in (-1, 0, 1):
+            b = e + d
+            if not f64_exact(str(b)) or abs(b) > 2**64:
+                continue
+            for kind in ("maximum", "minimum"):
+                for excl in (False, True):
+                    out.append((kind, str(e), str(b), excl))
+        for m in (1, 2, 3, 2**31, 2**32):
+            out.append(("multipleOf", str(e), str(m), False))
+    return out
+
+
 def gen_groups(seed, n):
     rng = random.Random(seed)
     cases = []
-    for g in range(n):
-        kind = rng.choice(["maximum", "minimum", "multipleOf"])
-        lit = rng.choice(VALUES)
-        c = rng.choice(FACTORS if kind == "multipleOf" else BOUNDS)
-        if kind != "multipleOf" and rng.random() < 0.35:   # bound at or next to the value
-            c = rng.choice([lit, str(Fraction(lit) + 1) if Fraction(lit).denominator == 1 else lit])
-            if not f64_exact(c):
-                c = lit
-        excl = kind != "multipleOf" and rng.random() < 0.4
+    edges = edge_groups()
+    for g in range(n + len(edges)):
+        if g < len(edges):
+            kind, lit, c, excl = edges[g]
+        else:
+            kind = rng.choice(["maximum", "minimum", "multipleOf"])
+            lit = rng.choice(VALUES)
+            c = rng.choice(FACTORS if kind == "multipleOf" else BOUNDS)
+            if kind != "multipleOf" and rng.random() < 0.35:   # bound at or next to the value
+                c = rng.choice([lit, str(Fraction(lit) + 1) if Fraction(lit).denominator == 1 else lit])
+                if not f64_exact(c):
+                    c = lit
+            excl = kind != "multipleOf" and rng.random() < 0.4
         for cv in carriers(lit):
             base = {"group": g, "kind": kind, "c": c, "excl": excl, "val": cv}
             cases.append(dict(base, entry="helper"))
@@ -150,6 +174,7 @@ def run_cases(chk, binp, cases, pf_ok, pf, nfloat):
         for r, o in zip(rs, outs):
             mver[r["id"]] = model_verdict(r, o)
     tie, viol, known, judged = [], [], 0, 0
+    big = {}
     groups = {}
     dist = {"valid": 0, "invalid": 0, "other": 0}
     for r in recs:
@@ -160,6 +185,9 @@ def run_cases(chk, binp, cases, pf_ok, pf, nfloat):
         dist["valid" if gv is True else "invalid" if gv is False else "other"] += 1
         if mver.get(r["id"]) != gv:
             tie.append((c, g, mver.get(r["id"])))
+        if gv is not None and not in_range(c) and c["kind"] != "multipleOf" and abs(Fraction(c["val"]["v"])) <= 2**53 and f64_exact(c["c"]):
+            # a very large constraint against a value every carrier holds exactly: the carriers must agree with each other
+            big.setdefault(c["group"], []).append((c, gv, g))
         if gv is None or not in_range(c):
             continue
         judged += 1
@@ -173,6 +201,17 @@ def run_cases(chk, binp, cases, pf_ok, pf, nfloat):
                 known += 1
             else:
                 viol.append((c, g, exact, cls))
+    for grp, members in sorted(big.items()):
+        verdicts = {gv for c, gv, g in members}
+        if len(verdicts) > 1:
+            exact = exact_verdict(members[0][0]["kind"], members[0][0]["c"], members[0][0]["excl"], members[0][0]["val"]["v"])
+            for c, gv, g in members:
+                if gv != exact:
+                    cls = classify(c, gv, exact, g)
+                    if cls is not None and cls in chk.known:
+                        continue
+                    viol.append((c, g, exact, cls))
+                    break
     for c, g, exact, cls in viol[:3]:
         chk.violation("numeric verdict differs from exact arithmetic on the mathematical values",
                       {"case": c, "go": g, "exact_valid": exact, "finding_class": cls})
